@@ -1,7 +1,7 @@
 (* C16 — correspondence: the harness records what the real codecs did on generated documents / keys. *)
 From Coq Require Import List String Ascii ZArith NArith Bool.
 Import ListNotations.
-From VF Require Export C16.Model.
+From VF Require Export C16.Model C16.ModelT.
 
 (* model output against observed output: Go prints a float64 with the shortest digits that read back to it,
    so an observed number stands for its float64 value *)
@@ -71,7 +71,11 @@ Inductive case :=
 (* did.ParseDocument -> JSONBytes, the whole document with its services *)
 | CDID (inp : json) (out : json)
 (* CreateDIDKeyByJwk of the NIST-curve public key (x, y): the bytes under the base58 layer of the did:key *)
-| CEC (code : N) (size : nat) (x y : Z) (mc : list N).
+| CEC (code : N) (size : nat) (x y : Z) (mc : list N)
+(* jwk.JWK.MarshalJSON of the NIST-curve public key (x, y): the texts of the members x and y; UnmarshalJSON gave (x, y) back *)
+| CECJ (size : nat) (x y : Z) (xs ys : string)
+(* a time text through a pointer-to-time.Time member (encoding/json) and back; None = refused *)
+| CTM (inp : string) (out : option string).
 
 Definition check_case (c : case) : bool :=
   match c with
@@ -95,9 +99,18 @@ Definition check_case (c : case) : bool :=
   | CSVC2 did base inp out => jeq (JObj (roundtrip_service did base inp)) (f64j (JObj out))
   | CDID inp out =>
       match out with
-      | JObj o => ojeq (roundtrip_did Fixed inp)
-                       (Some (JObj (filter (fun kv => negb (mem (fst kv) ["created"; "updated"; "proof"])) o)))
+      | JObj o => ojeq (roundtrip_did2 Fixed inp) (Some out)
       | _ => false
+      end
+  | CECJ size x y xs ys =>
+      let '(mx, my) := jwk_ec_members size x y in
+      String.eqb mx xs && String.eqb my ys &&
+      match jwk_ec_read size xs ys with Some (x', y') => Z.eqb x' x && Z.eqb y' y | None => false end
+  | CTM inp out =>
+      match norm_time inp, out with
+      | Some a, Some b => String.eqb a b
+      | None, None => true
+      | _, _ => false
       end
   | CEC code size x y mc =>
       match curve_size code with
